@@ -1,5 +1,6 @@
 """C08 -- one bad target never costs the others their results."""
 import ast
+import itertools
 
 from sa.core import AnalysisError, unparse, walk_no_nested, stmt_text, call_name, bind_args, attr_chain, func_id, get_kw
 from sa.logic import path_condition
@@ -187,76 +188,67 @@ def run(repo, rep, tier):
                 rep.check('rank', 'sys.exit code %s reachable from a task is ranked' % unparse(s.node.args[0]), v in ranked_vals, s.node, 'sys.exit(%s) in %s: code not in the rank list' % (unparse(s.node.args[0]), func_id(s.func)))
 
     # ---- rule 3: fold ---------------------------------------------------------------------------------------------------------
-    folds = [n for n in walk_no_nested(mn) if isinstance(n, ast.If) and 'ranked_return_codes.index' in unparse(n.test)]
-    ok = len(folds) == 1
-    if ok:
-        t = folds[0].test
-        ok = isinstance(t, ast.Compare) and len(t.ops) == 1 and isinstance(t.ops[0], ast.Gt) and unparse(t.left) == 'ranked_return_codes.index(worker_ret)' and unparse(t.comparators[0]) == 'ranked_return_codes.index(ret)' \
-            and [unparse(s) for s in folds[0].body] == ['ret = worker_ret'] and not folds[0].orelse
-    rep.check('fold', 'fold keeps the higher-ranked status: if rank(worker) > rank(acc): acc = worker', ok, folds[0] if folds else mn, 'rank fold changed: %s' % (unparse(folds[0].test) if folds else '?'))
-    inits = [n for n in walk_no_nested(mn) if isinstance(n, ast.Assign) and unparse(n.targets[0]) == 'ret' and unparse(n.value) == 'exitcodes.GOOD']
-    rep.check('fold', 'accumulator starts at GOOD before the loop', len(inits) == 1 and folds and inits[0].lineno < folds[0].lineno and not [k for t, p, k in path_condition(inits[0]) if k in ('for', 'while')], inits[0] if inits else mn, 'accumulator initialisation changed')
-    others = [n for n in walk_no_nested(mn) if isinstance(n, ast.Assign) and unparse(n.targets[0]) == 'ret' and n not in inits and unparse(n.value) not in ('worker_ret',) and not (isinstance(n.value, ast.Call) and call_name(n.value) == 'audit')]
-    rep.check('fold', 'no other definition of the accumulator', not others, others[0] if others else mn, 'accumulator overwritten by %s' % (unparse(others[0]) if others else ''))
-    rets = [r for r in walk_no_nested(mn) if isinstance(r, ast.Return)]
-    rep.check('fold', 'main returns the accumulator', [unparse(r.value) for r in rets] == ['ret'], mn, 'main returns %s' % [unparse(r.value) for r in rets])
-    wr = [n for n in walk_no_nested(mn) if isinstance(n, ast.Assign) and isinstance(n.value, ast.Call) and unparse(n.value.func) == 'future.result']
-    ok = len(wr) == 1 and unparse(wr[0].targets[0]) == '(worker_ret, worker_output)'
-    rep.check('fold', 'status and text come from the same future', ok, wr[0] if wr else mn, 'future.result() unpacking changed')
+    # main() interpreted for a run over three targets (props/_mainloop.py): for every triple of per-target statuses and several completion orders the process
+    # status is the highest-ranked one (GOOD < WARNING < FAILURE < CONNECTION_ERROR < UNKNOWN_ERROR), in text and JSON mode -- an if-chain, max(key=rank) alike
+    from props import _mainloop
+    rank_of = {v: i for i, v in enumerate(ranked_vals)}
+    badf = []
+    nf = 0
+    for sts in itertools.product(ranked_vals, repeat=3) if tier == 'thorough' else [t for t in itertools.product(ranked_vals, repeat=3) if len(set(t)) > 1 or t[0] == ranked_vals[0]]:
+        for order in ((0, 1, 2), (2, 0, 1)):
+            for js in ((False, True) if sts[0] == ranked_vals[0] else (False,)):
+                r = _mainloop.run(repo, list(sts), js, order=order)
+                nf += 1
+                rep.evals()
+                want = max(sts, key=lambda v: rank_of[v])
+                if r['crash'] or r['returned'] != want:
+                    badf.append('targets finishing with statuses %s (completion order %s%s): main() %s, expected %s' % (list(sts), list(order), ', JSON' if js else '', 'raises: %s' % r['crash'] if r['crash'] else 'returns %r' % (r['returned'],), want))
+    rep.floor('fold', 'multi-target runs interpreted', nf, 100)
+    rep.check('fold', 'the process status is the highest-ranked status any target ended with (%d runs)' % nf, not badf, mn, 'rank fold changed -- %s [%d runs deviate]' % (badf[0] if badf else '', len(badf)), stmt='multi-target status fold',
+              sample={'rule': 'fold', 'runs': nf})
 
-    # ---- rule 4: one block per target -------------------------------------------------------------------------------------------
-    loop = [n for n in walk_no_nested(mn) if isinstance(n, ast.For) and 'as_completed' in unparse(n.iter)]
-    rep.check('blocks', 'completion loop iterates as_completed(futures)', len(loop) == 1 and unparse(loop[0].iter) == 'concurrent.futures.as_completed(future_to_server)', loop[0] if loop else mn, 'completion loop changed')
-    if loop:
-        lp = loop[0]
-        c = CFG(mn, exc_edges=False)
-        head = c.nodes_of(lp, kinds=('test',))
-        body_entry = c.branch(lp, True)
-
-        def prints(pred):
-            return c.stmts_matching(lambda st: isinstance(st, ast.Expr) and isinstance(st.value, ast.Call) and isinstance(st.value.func, ast.Name) and st.value.func.id == 'print' and pred(st.value))
-        pw = [n for n in prints(lambda call: call.args and unparse(call.args[0]) == 'worker_output') if any(n.stmt is x for x in ast.walk(lp))]
-        rep.check('blocks', 'the loop prints the task text at one site', len({id(n.stmt) for n in pw}) == 1, lp, '%d print sites for worker_output' % len({id(n.stmt) for n in pw}))
-        if pw:
-            # every path through one iteration passes the print exactly once: (a) cannot reach the loop head again without it, (b) the print is not in a nested loop
-            p = c.find_path(body_entry, head, avoid=pw)
-            rep.check('blocks', 'every iteration prints the task text', p is None, pw[0].stmt, 'an iteration can skip printing a target\'s block', witness=describe_path(p) if p else None)
-            nested = [k for t, pp, k in path_condition(pw[0].stmt, stop=lp) if k in ('for', 'while')]
-            rep.check('blocks', 'the task text is printed once per iteration', not nested, pw[0].stmt, 'block printed inside a nested loop')
-            e = get_kw(pw[0].stmt.value, 'end')
-            rep.check('blocks', 'JSON elements are printed without a trailing newline', e is not None and unparse(e) == "'' if aconf.json else '\\n'", pw[0].stmt, 'print end= changed')
-        seps = [n for n in prints(lambda call: call.args and ("', '" in unparse(call.args[0]) or "'-' * 80" in unparse(call.args[0]))) if any(n.stmt is x for x in ast.walk(lp))]
-        rep.check('blocks', 'two separator sites (JSON comma, text rule)', len({id(n.stmt) for n in seps}) == 2, lp, 'separator print sites changed')
-        for n in seps:
-            conds = [(unparse(t), pp) for t, pp, k in path_condition(n.stmt, stop=lp) if k != 'for']
-            is_json = "', '" in unparse(n.stmt.value.args[0])
-            want = [('num_processed < num_target_servers', True), ('aconf.json', is_json)]
-            rep.check('blocks', 'separator printed iff more blocks follow (%s form)' % ('JSON' if is_json else 'text'), conds == want, n.stmt, 'separator guarded by %s' % conds)
-        inc = [n for n in lp.body if isinstance(n, ast.AugAssign) and unparse(n) == 'num_processed += 1']
-        rep.check('blocks', 'processed counter incremented once per iteration before the separator test', len(inc) == 1 and seps and inc[0].lineno < min(n.stmt.lineno for n in seps), lp, 'num_processed bookkeeping changed')
-        nts = [n for n in walk_no_nested(mn) if isinstance(n, ast.Assign) and unparse(n.targets[0]) == 'num_target_servers']
-        rep.check('blocks', 'block count is the number of parsed targets', len(nts) == 1 and unparse(nts[0].value) == 'len(target_servers)', nts[0] if nts else mn, 'num_target_servers changed')
-        npz = [n for n in walk_no_nested(mn) if isinstance(n, ast.Assign) and unparse(n.targets[0]) == 'num_processed']
-        rep.check('blocks', 'processed counter starts at 0', len(npz) == 1 and unparse(npz[0].value) == '0', mn, 'num_processed init changed')
-        # array delimiters
-        op = prints(lambda call: call.args and unparse(call.args[0]) == "'['")
-        cl = prints(lambda call: call.args and unparse(call.args[0]) == "']'")
-        ok = len(op) == 1 and len(cl) == 1
-        rep.check('blocks', 'one "[" and one "]" print', ok, mn, 'array delimiter prints: %d/%d' % (len(op), len(cl)))
-        if ok:
-            for n, nm in ((op[0], '['), (cl[0], ']')):
-                conds = [(unparse(t), pp) for t, pp, k in path_condition(n.stmt) if k == 'if']
-                rep.check('blocks', '"%s" printed iff JSON output, for the multi-target branch' % nm, conds == [('len(aconf.target_list) > 0', True), ('aconf.json', True)], n.stmt, '"%s" guarded by %s' % (nm, conds))
-            rep.check('blocks', '"[" precedes the loop and "]" follows it, outside the loop', op[0].stmt.lineno < lp.lineno < cl[0].stmt.lineno and not any(cl[0].stmt is x for x in ast.walk(lp)) and not any(op[0].stmt is x for x in ast.walk(lp)), cl[0].stmt, 'array delimiters not around the loop')
-    subs = [n for n in walk_no_nested(mn) if isinstance(n, ast.Call) and isinstance(n.func, ast.Attribute) and n.func.attr == 'submit']
-    ok = len(subs) == 1
-    if ok:
-        comp = subs[0]
-        while not isinstance(comp, (ast.DictComp, ast.ListComp)):
-            comp = comp._parent
-        g = comp.generators[0]
-        ok = unparse(g.iter) == 'target_servers' and not g.ifs and len(comp.generators) == 1
-    rep.check('blocks', 'exactly one task is submitted per parsed target (no filter)', ok, subs[0] if subs else mn, 'submit comprehension changed')
+    # ---- rule 4: one block per target (same model) ------------------------------------------------------------------------------
+    # for 0..4 targets and two completion orders: text mode prints each target's report exactly once, as one print, with a rule between consecutive reports;
+    # JSON mode prints "[", the reports separated by a comma, "]" -- nothing before, between or after; one task is submitted per listed target
+    badb = []
+    for n_t in (1, 2, 3, 4):
+        for order in (tuple(range(n_t)), tuple(reversed(range(n_t)))):
+            for js in (False, True):
+                r = _mainloop.run(repo, [ranked_vals[0]] * n_t, js, order=order)
+                rep.evals()
+                ctx = '%d target(s), completion order %s, %s' % (n_t, list(order), 'JSON' if js else 'text')
+                texts = [t for t, e in r['prints']]
+                reports = [t for t in texts if t.startswith('<report ')]
+                if r['crash']:
+                    badb.append('%s: main() raises %s' % (ctx, r['crash']))
+                    continue
+                if len(r['submitted']) != n_t or [h for h, p_ in r['submitted']] != ['host%d' % i for i in range(n_t)]:
+                    badb.append('%s: tasks submitted for %s' % (ctx, r['submitted']))
+                if reports != ['<report %d>' % i for i in order]:
+                    badb.append('%s: reports printed: %s (each target\'s text exactly once, in completion order)' % (ctx, reports))
+                    continue
+                if js:
+                    flat = ''.join(t + e for t, e in r['prints']).strip()
+                    want = '[' + ', '.join('<report %d>' % i for i in order) + ']'
+                    if flat.replace(' ', '') != want.replace(' ', ''):
+                        badb.append('%s: stdout is %r, expected the array %r' % (ctx, flat, want))
+                else:
+                    seps = [k for k, t in enumerate(texts) if not t.startswith('<report ')]
+                    between = all(0 < k < len(texts) - 1 and texts[k - 1].startswith('<report ') and texts[k + 1].startswith('<report ') and set(texts[k].strip()) <= {'-'} and len(texts[k].strip()) >= 10 for k in seps)
+                    if len(seps) != n_t - 1 or not between:
+                        badb.append('%s: printed sequence %s (expected one rule between consecutive reports and nothing else)' % (ctx, [t[:12] for t in texts]))
+    # a target whose report is empty still gets its block; a target with an empty host name is still scanned (reported as a connection error by its task)
+    for js in (False, True):
+        r = _mainloop.run(repo, [ranked_vals[0]] * 3, js, texts=['<report 0>', '', '<report 2>'])
+        rep.evals()
+        blocks = [t for t, e in r['prints'] if t.startswith('<report ') or t == '']
+        if blocks != ['<report 0>', '', '<report 2>']:
+            badb.append('3 targets, the second with an empty report, %s: blocks printed: %s' % ('JSON' if js else 'text', blocks))
+        r = _mainloop.run(repo, [ranked_vals[0]] * 3, js, targets=['host0', '', 'host2'])
+        if len(r['submitted']) != 3:
+            badb.append('3 listed targets, one with an empty host name: %d tasks submitted' % len(r['submitted']))
+    rep.check('blocks', 'one block per target: reports printed once each, separated (text) / bracketed and comma-separated (JSON), one task per listed target', not badb, mn,
+              'multi-target output structure changed -- %s [%d runs deviate]' % (badb[0] if badb else '', len(badb)), stmt='multi-target block structure', sample={'rule': 'blocks', 'runs': 16})
     # prints only in the main thread: the task and everything it reaches must not print blocks itself
     for n in walk_no_nested(tw):
         if isinstance(n, ast.Call) and isinstance(n.func, ast.Name) and n.func.id == 'print':
